@@ -887,11 +887,14 @@ static void wlSync(Ctx& c, int nexec, int len)
 // ---------------------------------------------------------------- C17: copies are equal and independent; solves are deterministic
 static std::string solJson(SoPlex& s)
 {
-   if(!s.hasSol()) return "\"none\"";
-   int nr = s.numRows(), nc = s.numCols(); VectorBase<double> x(nc), sl(nr), y(nr), d(nc);
+   int nr = s.numRows(), nc = s.numCols(); VectorBase<double> x(nc), sl(nr), y(nr), d(nc), ray(nc), fk(nr);
+   // the proofs are part of what a copy must reproduce (flag AND vector)
+   bool hr = s.hasPrimalRay(), hf = s.hasDualFarkas(); bool gr = hr && s.getPrimalRay(ray), gf = hf && s.getDualFarkas(fk);
+   std::string proofs = std::string(",\"hasRay\":") + (hr ? "true" : "false") + ",\"ray\":" + (gr ? dvec(ray) : std::string("[]")) + ",\"hasFarkas\":" + (hf ? "true" : "false") + ",\"farkas\":" + (gf ? dvec(fk) : std::string("[]"));
+   if(!s.hasSol()) return "{\"hasSol\":false" + proofs + "}";
    bool a = s.getPrimal(x), b = s.getSlacksReal(sl), e = s.getDual(y), f = s.getRedCost(d);
-   J j; j.q("obj", s.objValueReal()).raw("x", a ? dvec(x) : "[]").raw("s", b ? dvec(sl) : "[]").raw("y", e ? dvec(y) : "[]").raw("d", f ? dvec(d) : "[]");
-   return j.str();
+   J j; j.b("hasSol", true).q("obj", s.objValueReal()).raw("x", a ? dvec(x) : "[]").raw("s", b ? dvec(sl) : "[]").raw("y", e ? dvec(y) : "[]").raw("d", f ? dvec(d) : "[]");
+   std::string r = j.str(); r.pop_back(); return r + proofs + "}";
 }
 static int copyObj(Ctx& c, int src, bool assign, int into = -1)
 {
@@ -915,6 +918,29 @@ static void wlCopy(Ctx& c, int nexec, int len)
       T().line("{\"a\":\"Reset\"}");
       c.objs.clear(); c.nextId = 0; c.logOthers = true;
       Gen gen{c.rng, 0};
+      // a copy of an object that has not been solved yet must solve exactly like its source (same LP, same settings, same
+      // seed, no basis): the two solves carry the same determinism key
+      if(c.rng.coin())
+      {
+         int a0 = createObj(c); fullConfig(c, a0);
+         if(c.rng.coin()) { setInt(c, a0, "REPRESENTATION", SoPlex::REPRESENTATION, SoPlex::REPRESENTATION_ROW); setInt(c, a0, "ALGORITHM", SoPlex::ALGORITHM, SoPlex::ALGORITHM_PRIMAL); setInt(c, a0, "RATIOTESTER", SoPlex::RATIOTESTER, SoPlex::RATIOTESTER_BOUNDFLIPPING); }
+         LPData L0;
+         if(c.rng.coin()) L0 = genWitnessed(c.rng, 7, c.rng.coin(3, 4) ? "OPT" : (c.rng.coin() ? "INF" : "UNB"), 0);
+         else
+         {
+            // boxed columns and ranged rows around the feasible point 0 (finite optimum, long steps / bound flips possible), more rows than columns
+            L0.n = c.rng.R(3, 7); L0.m = c.rng.R(L0.n + 1, 2 * L0.n + 2); L0.sense = 1; L0.kind = "OPT";
+            for(int j = 0; j < L0.n; j++) { L0.c.push_back(c.rng.R(-3, 7)); L0.lo.push_back(0); L0.up.push_back(c.rng.R(1, 4)); }
+            L0.A.assign(L0.m, std::vector<double>(L0.n, 0.0));
+            for(int i = 0; i < L0.m; i++) { for(int j = 0; j < L0.n; j++) if(c.rng.coin()) L0.A[i][j] = c.rng.R(-2, 4); L0.lhs.push_back(-c.rng.R(1, 5)); L0.rhs.push_back(c.rng.R(2, 10)); }
+            setInt(c, a0, "SIMPLIFIER", SoPlex::SIMPLIFIER, SoPlex::SIMPLIFIER_OFF); setInt(c, a0, "ALGORITHM", SoPlex::ALGORITHM, c.rng.coin() ? SoPlex::ALGORITHM_DUAL : SoPlex::ALGORITHM_PRIMAL);
+         }
+         loadLP(c, a0, L0, false);
+         int b0 = copyObj(c, a0, false);
+         SolveOpts so; so.complete = false; so.detKey = "cp" + std::to_string(e);
+         optimize(c, a0, so); optimize(c, b0, so);
+         destroyObj(c, b0); destroyObj(c, a0);
+      }
       int a = createObj(c);
       if(c.rng.coin()) fullConfig(c, a);
       LPData L = genWitnessed(c.rng, 4, c.rng.coin(3, 4) ? "OPT" : (c.rng.coin() ? "INF" : "UNB"), 0);
